@@ -76,3 +76,13 @@ _p('C31', secs=(20, 300), runs=(400000, 40000000), mix=(3, 6),
     stub=['callbacks: recording probe methods with scripted results'],
     level_text='seeded exploration of timelines and interleavings; oracle: never before due time, due-time order among queued+due events, repeat interval and stop-on-false, nothing pending runs after clear() returns, bounded liveness after the last due time',
     level_note='trusted: simulated clock (no clock jumps injected: the statement does not quantify over them), kernel')
+
+_p('C24', secs=(20, 300), runs=(100000, 10000000),
+    title='Session activation follows the configured schedule',
+    technique='deterministic simulation of time: the real Schedule::test() reads the simulated clock and is walked along a virtual timeline of 3-5 weeks in seeded steps of 1-60 s (landing on the window boundaries), each result fed back as prev and compared with an interval reference model; decode_dow enumerated directly (pure clause)',
+    rule='one evaluation = one seeded schedule (start/end time of day at least 2 min apart, utc offset -720..+840 min, daily or weekly with any start/end weekday pair incl. equal and wrap-around) walked over 3 weeks (3-5 thorough) from an inactive instant, about 36 000 test() calls per week; non-trivial = the schedule changed state at least twice; distinct = distinct event-log hash. In 2% of runs all 279 000 strings of length <= 3 over [a-zA-Z0-9 -] are passed to decode_dow (pure clause, enumerated directly, not simulation)',
+    real=['FIX8::Schedule::test', 'Tickval clock read / adjust / in_range / get_tm', 'FIX8::decode_dow'],
+    stub=['wall clock: simulated (system_clock::now wrapped at link time)', 'Configuration::create_schedule (XML) is not exercised: schedules are constructed directly with start < end as create_schedule enforces'],
+    assumptions=['checks happen at least once a minute (premise of the statement)', 'start time of day < end time of day (Configuration::create_schedule rejects anything else)', 'the walk starts at an instant where the schedule is inactive, with prev=false', 'no clock jumps'] + COMMON_ASSUME[1:],
+    level_text='seeded exploration of schedule configurations over simulated weeks; every call of the real function is compared with the interval model; the weekday-name clause is exhaustive up to length 3',
+    level_note='trusted: the interval reference model in harness/c24.cpp, the simulated clock; decode_dow reference reading: digit 0-6 alone, or unique first letter (m,w,f), or first two letters for s/t names; further characters are ignored')
